@@ -15,7 +15,7 @@ func init() { register("C02", propC02) }
 func propC02() *Property {
 	return &Property{
 		ID:      "C02",
-		Decides: "the structure of the reliable-UDP machinery on every path the compiler can build. R02.1 the sender forgets a segment only under the peer's cumulative ack and inserts it in sendBuf before the first transmission (R13.3); R02.2 the receiver releases segments only at nextRecv, one at a time, and every ack field is a fresh load of nextRecv (R13.1, R13.2); R02.3 the peer's window is learned from every ack and every data segment: in inputAck every successful return of the datagram case is dominated by remoteWindowSize.Store(das.windowSize), in inputData that store is conditional only on the segment being a data/ack segment; R02.4 every data datagram, including duplicates and out-of-window ones, schedules an ack (ackOnDataRecv.Store(true) is unconditional in the datagram case and precedes every drop); R02.5 the ack/heartbeat decision is reached by every invocation of the output step that is not in the output-error state and is gated only by {session opening, ack requested, heartbeat interval} - never by a send or congestion window; the ack carries nextRecv and receiveWindowSize(); R02.6 retransmission: the sendBuf scan is gated only by the retransmission timer, never consults a window, retransmits on timeout, and the duplicate-ack trigger is bounded per segment (an Explorer run shows no path to a transmission with 'dup-ack threshold reached' true, 'within the early-retransmission limit' false and 'timed out' false), so duplicate acks cannot burn the 20-transmission budget; R02.7 only data is deferred while the client waits for the open response (isDataProtocol folded over all 16 protocol numbers is true exactly for the four data protocols; the deferral test returns false unless isClientPacketSessionOpening), and the open response moves the session to established and wakes the sender; R02.9 the congestion window can never reach 0: every write of it is the minimum or is clamped before the function returns, the clamp raises small values, the session's minimum is the positive constant 16, and the send window depends only on congestion window, in-flight count and the peer's window; R02.8 datagram authentication: delivered payloads are AEAD outputs, a bad datagram is discarded without touching the session (R04.1, R04.5).",
+		Decides: "the structure of the reliable-UDP machinery on every path the compiler can build. R02.1 the sender forgets a segment only under the peer's cumulative ack and inserts it in sendBuf before the first transmission (R13.3); R02.2 the receiver releases segments only at nextRecv, one at a time, and every ack field is a fresh load of nextRecv (R13.1, R13.2); R02.3 the peer's window is learned from every ack and every data segment: in inputAck every successful return of the datagram case is dominated by remoteWindowSize.Store(das.windowSize), in inputData that store is conditional only on the segment being a data/ack segment; R02.4 every data datagram, including duplicates and out-of-window ones, schedules an ack (ackOnDataRecv.Store(true) is unconditional in the datagram case and precedes every drop); R02.5 the ack/heartbeat decision is reached by every invocation of the output step that is not in the output-error state and is gated only by {session opening, ack requested, heartbeat interval} - never by a send or congestion window; the ack carries nextRecv and receiveWindowSize(); R02.6 retransmission: the sendBuf scan is gated only by the retransmission timer, never consults a window, retransmits on timeout, and the duplicate-ack trigger is bounded per segment (an Explorer run shows no path to a transmission with 'dup-ack threshold reached' true, 'within the early-retransmission limit' false and 'timed out' false), so duplicate acks cannot burn the 20-transmission budget; R02.7 only data is deferred while the client waits for the open response (isDataProtocol folded over all 16 protocol numbers is true exactly for the four data protocols; the deferral test returns false unless isClientPacketSessionOpening), and the open response moves the session to established and wakes the sender; R02.9 the congestion window can never reach 0: every write of it is the minimum or is clamped before the function returns, the clamp raises small values, the session's minimum is the positive constant 16, and the send window depends only on congestion window, in-flight count and the peer's window; R02.8 datagram authentication: delivered payloads are AEAD outputs, a bad datagram is discarded without touching the session (R04.1, R04.5).; R02.10 the datagram receive buffer is a constant-size buffer of at least the maximum supported MTU (1500), independent of the local MTU",
 		NotDecided: "liveness under a fair-lossy network as such (a temporal property over histories: needs a model, not this family); timer values and RTO arithmetic; cubic's window evolution; the segment tree's ordering; sequence wrap-around.",
 		Rules: []Rule{
 			{ID: "R02.1", Floor: 4, Text: "sendBuf deletions only under the peer's ack; Insert dominates output (shared with R13.3)", Run: r13_3},
@@ -26,6 +26,7 @@ func propC02() *Property {
 			{ID: "R02.6", Floor: 6, Text: "retransmission: timer-gated scan, no window, timeout trigger present, duplicate-ack trigger bounded per segment", Run: r02_6},
 			{ID: "R02.7", Floor: 5, Text: "only data is deferred during open; open response establishes and wakes the sender", Run: r02_7},
 			{ID: "R02.9", Floor: 6, Text: "the congestion window cannot close: every write is the minimum or is clamped by inRange; positive constant minimum; sendWindowSize inputs", Run: r02_9},
+			{ID: "R02.10", Floor: 1, Text: "the datagram receive buffer holds the largest datagram a conforming peer may send (the maximum supported MTU), whatever the local MTU", Run: r02_10},
 			{ID: "R02.8", Floor: 8, Text: "datagram authentication and discard (shared with R04.1, R04.5)", Run: func(c *RC) { r04_1(c); r04_5(c) }},
 		},
 	}
@@ -1017,5 +1018,57 @@ func r02_9(c *RC) {
 		c.OKH("send-window-inputs", sw.Pos(), "sendWindowSize depends only on the congestion window, the in-flight count and the peer's window")
 	} else {
 		c.Bad("send-window-inputs", sw.Pos(), "sendWindowSize consults %v", keysOf(seen))
+	}
+}
+
+
+// r02_10: MTUs are configured per side (1280..1500). The buffer handed to
+// ReadFrom must hold a full datagram of a peer that uses the largest
+// supported MTU; a buffer sized by the local MTU truncates the peer's
+// full-size datagrams, every retransmission fails authentication and the
+// transfer stalls (seed C02f).
+func r02_10(c *RC) {
+	p := c.P
+	fn := p.Fn(protoPkg, "PacketUnderlay.readOneSegment")
+	if fn == nil {
+		c.Anchor("PacketUnderlay.readOneSegment")
+		return
+	}
+	const maxMTU = 1500
+	n := 0
+	instrs(fn, func(_ *ssa.BasicBlock, _ int, in ssa.Instruction) {
+		cl, ok := in.(ssa.CallInstruction)
+		if !ok || !cl.Common().IsInvoke() || cl.Common().Method.Name() != "ReadFrom" {
+			return
+		}
+		if f := fieldOrigin(cl.Common().Value); f == nil || f.Name() != "conn" {
+			return
+		}
+		n++
+		root := sliceRoot(cl.Common().Args[0])
+		size := int64(-1)
+		switch x := root.(type) {
+		case *ssa.MakeSlice:
+			if k, ok := constInt(x.Len); ok {
+				size = k
+			}
+		case *ssa.Alloc:
+			if pt, ok := x.Type().Underlying().(*types.Pointer); ok {
+				if at, ok := pt.Elem().Underlying().(*types.Array); ok {
+					size = at.Len()
+				}
+			}
+		}
+		key := "receive-buffer-covers-max-mtu"
+		if size >= maxMTU {
+			c.OKH(key, in.Pos(), "ReadFrom into a %d-byte buffer (>= the maximum MTU %d)", size, maxMTU)
+		} else if size >= 0 {
+			c.Bad(key, in.Pos(), "the datagram receive buffer has %d bytes, less than the largest MTU a peer may be configured with (%d): that peer's full-size datagrams are truncated and never authenticate", size, maxMTU)
+		} else {
+			c.Bad(key, in.Pos(), "the datagram receive buffer is sized by %s, not by a constant covering the largest MTU a peer may use (%d): with a smaller local MTU the peer's full-size datagrams are truncated, no retransmission can succeed and the transfer stalls", describe(root), maxMTU)
+		}
+	})
+	if n == 0 {
+		c.Undecided("receive-buffer-covers-max-mtu", fn.Pos(), "no ReadFrom on the datagram socket found")
 	}
 }
